@@ -388,3 +388,13 @@ add("s-geometry-values-in-temporaries", S, ["C13"], "dfols/trust_region.py", "  
 # ---- C14-2: an early return that skips the clamp
 add("random-directions-fast-path-skips-clamp", F, ["C14"], "dfols/util.py", "    # ninactive = n - nactive\n    idx_active = np.where(active)[0]  # indices of active constraints\n",
     "    # ninactive = n - nactive\n    if nactive == 0:\n        dirns = np.random.normal(size=(num_pts, n))\n        return dirns * (delta / np.linalg.norm(dirns, axis=1)).reshape((num_pts, 1))\n    idx_active = np.where(active)[0]  # indices of active constraints\n", "C14-2")
+
+# ---- C12-4: work vectors under the active-set mask
+add_multi("alt-step-work-vector-allocated-once", F, ["C12"], [
+    ("dfols/trust_region.py", "    # while True:  # label 100 here\n", "    s = np.zeros((n,))  # work vector\n    # while True:  # label 100 here\n"),
+    ("dfols/trust_region.py", "        s = np.zeros((n,))\n        s[xbdi == 0] = d[xbdi == 0]\n", "        s[xbdi == 0] = d[xbdi == 0]\n"),
+    ("dfols/trust_region.py", "            temp = sqrt(temp)\n            s = np.zeros((n,))\n", "            temp = sqrt(temp)\n"),
+], "C12-4")
+add("s-alt-step-inner-allocation-dropped", S, ["C12"], "dfols/trust_region.py", "            temp = sqrt(temp)\n            s = np.zeros((n,))\n", "            temp = sqrt(temp)\n")
+add("s-alt-step-buffer-zeroed-in-place", S, ["C12"], "dfols/trust_region.py", "        s = np.zeros((n,))\n        s[xbdi == 0] = d[xbdi == 0]\n", "        s = np.empty((n,))\n        s[:] = 0.0\n        s[xbdi == 0] = d[xbdi == 0]\n")
+add("s-alt-step-complementary-mask-zeroed", S, ["C12"], "dfols/trust_region.py", "        s = np.zeros((n,))\n        s[xbdi == 0] = d[xbdi == 0]\n", "        s = np.empty((n,))\n        s[xbdi != 0] = 0.0\n        s[xbdi == 0] = d[xbdi == 0]\n")
